@@ -238,29 +238,24 @@ static void prepare(Case& C, Gen& gen, Rng& g, unsigned variant, Out* out) {
             if (g.chance(3)) p.pts.resize(1);
         }
     }
+    // references to shared children and by name, more often than the generator does
+    for (size_t i = 0; i + 1 < L.cells.size(); i++) {
+        if (!g.chance(35)) continue;
+        ARef r;
+        r.how = g.chance(60) ? 0 : 1;
+        r.target = L.cells[(size_t)g.range((int64_t)i + 1, (int64_t)L.cells.size() - 1)].name;
+        r.x = gen.coord();
+        r.y = gen.coord();
+        r.quarter = true;
+        r.k = (int)g.range(-4, 4);
+        r.refl = g.coin();
+        r.rep = gen.rep(40, false);
+        L.cells[i].refs.push_back(r);
+        if (out) out->count("class:extra-reference");
+    }
     if (g.chance(6)) {
         L.cells.clear();
         if (out) out->count("class:no-cells");
-    }
-    if (L.cells.size() >= 2 && g.chance(5) && !C.f_top && !C.f_bbox) {
-        // duplicate cell name (see harness/c04w.cpp): both ACells end up in the LAST Cell object
-        ACell& first = L.cells.front();
-        ACell& last = L.cells.back();
-        std::string old = last.name;
-        for (auto& c : L.cells)
-            for (auto& r : c.refs)
-                if (r.target == old) r.target = first.name;
-        last.name = first.name;
-        last.polys.insert(last.polys.begin(), first.polys.begin(), first.polys.end());
-        last.paths.insert(last.paths.begin(), first.paths.begin(), first.paths.end());
-        last.labels.insert(last.labels.begin(), first.labels.begin(), first.labels.end());
-        last.refs.insert(last.refs.begin(), first.refs.begin(), first.refs.end());
-        first.polys.clear();
-        first.paths.clear();
-        first.labels.clear();
-        first.refs.clear();
-        first.props.clear();
-        if (out) out->count("class:duplicate-cell-name");
     }
     // the Cell objects outside the library get geometry of their own (no references)
     for (auto& n : L.outside) {
@@ -281,21 +276,6 @@ static void prepare(Case& C, Gen& gen, Rng& g, unsigned variant, Out* out) {
             c.paths.push_back(p);
         }
         C.outside.push_back(c);
-    }
-    // references to shared children and by name, more often than the generator does
-    for (size_t i = 0; i + 1 < L.cells.size(); i++) {
-        if (!g.chance(35)) continue;
-        ARef r;
-        r.how = g.chance(60) ? 0 : 1;
-        r.target = L.cells[(size_t)g.range((int64_t)i + 1, (int64_t)L.cells.size() - 1)].name;
-        r.x = gen.coord();
-        r.y = gen.coord();
-        r.quarter = true;
-        r.k = (int)g.range(-4, 4);
-        r.refl = g.coin();
-        r.rep = gen.rep(40, false);
-        L.cells[i].refs.push_back(r);
-        if (out) out->count("class:extra-reference");
     }
     auto all_cells = [&](std::function<void(ACell&)> f) {
         for (auto& c : L.cells) f(c);
@@ -356,6 +336,26 @@ static void prepare(Case& C, Gen& gen, Rng& g, unsigned variant, Out* out) {
             c.props.clear();
             insert_reserved(gen, g, c.props, true, out);
         }
+    }
+    if (L.cells.size() >= 2 && g.chance(5) && !C.f_top && !C.f_bbox) {
+        // duplicate cell name (see harness/c04w.cpp): both ACells end up in the LAST Cell object
+        ACell& first = L.cells.front();
+        ACell& last = L.cells.back();
+        std::string old = last.name;
+        for (auto& c : L.cells)
+            for (auto& r : c.refs)
+                if (r.target == old) r.target = first.name;
+        last.name = first.name;
+        last.polys.insert(last.polys.begin(), first.polys.begin(), first.polys.end());
+        last.paths.insert(last.paths.begin(), first.paths.begin(), first.paths.end());
+        last.labels.insert(last.labels.begin(), first.labels.begin(), first.labels.end());
+        last.refs.insert(last.refs.begin(), first.refs.begin(), first.refs.end());
+        first.polys.clear();
+        first.paths.clear();
+        first.labels.clear();
+        first.refs.clear();
+        first.props.clear();
+        if (out) out->count("class:duplicate-cell-name");
     }
 }
 
@@ -589,8 +589,10 @@ static void truth(const Case& C, const std::vector<uint8_t>& file, Truth& t) {
         }
     }
     for (auto& c : L.cells) {
-        if (C.cell_offset && n_off[c.name] != 1) t.fail("oas-std-truth", "S_CELL_OFFSET count of " + c.name);
-        if (C.f_bbox && n_box[c.name] != 1) t.fail("oas-std-truth", "S_BOUNDING_BOX count of " + c.name);
+        int same_name = 0;
+        for (auto& d : L.cells) same_name += d.name == c.name;
+        if (C.cell_offset && n_off[c.name] != same_name) t.fail("oas-std-truth", "S_CELL_OFFSET count of " + c.name);
+        if (C.f_bbox && n_box[c.name] != same_name) t.fail("oas-std-truth", "S_BOUNDING_BOX count of " + c.name);
     }
 }
 
